@@ -100,6 +100,7 @@ const uninitializedTimestampDelta = 0xffffffff
 type Writer struct {
 	w              io.Writer
 	timestampDelta uint32 // 流在中间输出时的相对时间戳
+	deltaSet       bool   // timestampDelta 是否已取自第一个 Tag
 }
 
 // NewWriter .
@@ -140,8 +141,9 @@ func (w *Writer) writeTagSize(tagSize uint32) error {
 // WriteFlvTag write flv tag
 func (w *Writer) WriteFlvTag(tag *Tag) error {
 	// 记录第一个Tag的时间戳
-	if w.timestampDelta == uninitializedTimestampDelta {
+	if !w.deltaSet {
 		w.timestampDelta = tag.Timestamp
+		w.deltaSet = true
 	}
 
 	if err := writeTag(w.w, tag, w.timestampDelta); err != nil {
